@@ -683,6 +683,10 @@ func Templates(fs string, core, removeAll bool) []Tmpl {
 		// replaces /d/x, whose file has a second name /d/h, from another directory
 		one(fsx.Call{Op: "Rename", A: "/f/g", B: "/d/x"}),
 		one(fsx.Call{Op: "Link", A: "/d/x", B: "/f/l"}),
+		// two unrelated directories whose order by length (/f, /d/e) is not their
+		// order as text (/d/e, /f): code that orders its locks compares paths
+		one(fsx.Call{Op: "Link", A: "/d/e/z", B: "/f/l"}),
+		one(fsx.Call{Op: "Rename", A: "/f/g", B: "/d/e/y"}),
 		one(fsx.Call{Op: "Link", A: "/d/e/z", B: "/d/y"}),
 		one(fsx.Call{Op: "Chmod", A: "/d/x", Perm: 0o600}),
 		one(fsx.Call{Op: "Chmod", A: "/d/e", Perm: 0o700}),
